@@ -4,6 +4,7 @@ import FunModel.Drv.C19
 import FunModel.Drv.C16
 import FunModel.Drv.C18
 import FunModel.Drv.C02
+import FunModel.Drv.C14
 
 /-! Line-protocol driver: `driver <property>` reads one S-expression per line on stdin and prints
     the model's observation for it on one line. Core Lean only (no Mathlib) so it links. -/
@@ -15,6 +16,7 @@ def handlerFor : String → Option (Sexp → String)
   | "C16" => some DrvC16.handle
   | "C18" => some DrvC18.handle
   | "C02" => some DrvC02.handle
+  | "C14" => some DrvC14.handle
   | "C17" => some DrvC16.handle
   | _ => none
 
